@@ -418,8 +418,31 @@ def fn_ranges(path: str):
             e = match_brace(mask, k)
         except LostAnchor:
             continue
-        res.append((m.group(1), src.count("\n", 0, m.start()) + 1, src.count("\n", 0, e) + 1))
-    return res
+        res.append((m.group(1), src.count("\n", 0, m.start()) + 1, src.count("\n", 0, e) + 1, m.start()))
+    # a short name used by several fns of the file (e.g. three `load`s) is qualified by the type of its impl block
+    impls = []
+    for m in re.finditer(r"\bimpl\b([^{;]*)\{", mask):
+        try:
+            e = match_brace(mask, m.end() - 1)
+        except LostAnchor:
+            continue
+        hdr = m.group(1)
+        hdr = hdr.split(" for ")[-1] if " for " in hdr else hdr
+        hdr = re.sub(r"^\s*<[^>]*>\s*", "", hdr)
+        t = re.match(r"\s*([A-Za-z_][A-Za-z0-9_]*)", hdr)
+        if t:
+            impls.append((m.start(), e, t.group(1)))
+    counts = {}
+    for n, _, _, _ in res:
+        counts[n] = counts.get(n, 0) + 1
+    out = []
+    for n, a, b, pos in res:
+        if counts[n] > 1:
+            owner = [t for (s0, e0, t) in impls if s0 < pos < e0]
+            if owner:
+                n = f"{owner[-1]}::{n}"
+        out.append((n, a, b))
+    return out
 
 
 CONTRACT_MSG = [
